@@ -11,11 +11,15 @@ Arguments N.max : simpl never.
 Arguments N.to_nat : simpl never.
 
 Lemma pinv_choose : forall s hi, PInv s hi -> unflushed s = 0%nat ->
+  (forall i, In i (unvalidated (all_recs (segs s))) ->
+     i <= newest (segs s) \/ ~ In i (snapfiles s) \/ last_commit (all_recs (segs s)) < i) ->
   choose_snapshot (segs s) (snapfiles s) = if 0 <? newest (segs s) then Some (newest (segs s)) else None.
 Proof.
-  intros s hi P U. apply choose_newest.
-  - apply (p_new_in _ _ P).
-  - intros i Hi. apply newest_ge. exact Hi.
+  intros s hi P U J. apply choose_newest.
+  - apply pmarkers_sub. apply (p_new_in _ _ P).
+  - intros f Hf Hv. unfold valid_markers in Hv. apply filter_In in Hv. destruct Hv as [Hm Hc].
+    destruct (markers_split _ _ Hm) as [X|X]; [apply newest_ge; exact X|].
+    destruct (J f X) as [A|[A|A]]; [exact A | contradiction | lia].
   - pose proof (p_commit _ _ P 0%nat ltac:(lia)) as H. rewrite drop_tail_0 in H. exact H.
   - apply (p_nozero _ _ P).
   - intros Hp. apply (p_file _ _ P Hp).
@@ -25,69 +29,178 @@ Lemma restoring_ok : forall c s hi, (if running s then VInv c s hi else RInv s) 
   forall i, restoring s = Some i -> i = newest (segs s) /\ 0 < i.
 Proof.
   intros c s hi HV i Hi. destruct (running s).
-  - destruct HV. destruct v_pgwal as [_ Pr]. congruence.
+  - destruct HV. destruct (proj2 v_pgwal i Hi) as [k Hk]. rewrite Hk in v_app.
+    destruct v_app as [A [B [[C1 [C2 C3]] D]]]. split; [symmetry; exact C2 | lia].
   - destruct HV as [_ [_ [_ [_ [_ [_ [_ [_ [_ [Hrs _]]]]]]]]]]. apply Hrs. exact Hi.
+Qed.
+
+(* the weak form of the clause about incoming markers that were never made valid *)
+Lemma unval_weak : forall c s hi, (if running s then VInv c s hi else RInv s) ->
+  forall i, In i (unvalidated (all_recs (segs s))) ->
+    i <= newest (segs s) \/ ~ In i (snapfiles s) \/ (0 < i /\ i = pend_idx s) \/ last_commit (all_recs (segs s)) < i.
+Proof.
+  intros c s hi HV i Hi. destruct (running s).
+  - destruct HV. destruct (v_unval i Hi) as [A|[A|A]]; auto.
+  - destruct HV as [_ [_ [_ [_ [_ [_ [_ [_ [_ [_ [Hun _]]]]]]]]]]]. destruct (Hun i Hi) as [A|[A|[_ A]]]; auto.
 Qed.
 
 (* ---------- process death ---------- *)
 
-(* no incoming snapshot is being persisted (runs of a replica that never gets one) *)
-Lemma pending_none : forall c s hi, (if running s then VInv c s hi else RInv s) -> pending s = None.
+(* what the restart needs of the state right after a process death *)
+Lemma rinv_crashed : forall s ss,
+  (forall i, restoring s = Some i -> i = newest ss /\ 0 < i) ->
+  (forall u, In u (unvalidated (all_recs ss)) -> u <= newest ss \/ ~ In u (snapfiles s) \/ last_commit (all_recs ss) < u) ->
+  RInv (reset_volatile (set_segs s ss)).
 Proof.
-  intros c s hi HV. unfold pending. destruct (running s).
-  - destruct HV. unfold rd_inv in v_rd. destruct (rdp s) as [|r sv pb|r pb apd|r pb idx|r|r fl|r|r k]; try reflexivity; try contradiction.
-    + assert (X : r_snap r = 0) by (destruct sv; tauto). rewrite X. reflexivity.
-    + assert (X : r_snap r = 0) by (destruct apd; tauto). rewrite X. reflexivity.
-    + assert (X : r_snap r = 0) by tauto. rewrite X. reflexivity.
-  - destruct HV as [_ [Hr _]]. rewrite Hr. reflexivity.
+  intros s ss Hr Hu. unfold RInv. proj. repeat split; try reflexivity; try discriminate.
+  - apply Hr; assumption.
+  - apply Hr; assumption.
+  - intros u Hin. destruct (Hu u Hin) as [A|[A|A]]; auto.
+Qed.
+
+(* the pending incoming snapshot's hard state is in the image only in the state after its Save, with nothing lost *)
+Lemma pending_valid_image : forall c s hi r j,
+  VInv c s hi -> pending s = Some r -> (j <= unflushed s)%nat ->
+  r_snap r <= last_commit (all_recs (drop_tail (segs s) j)) ->
+  j = 0%nat /\ rdp s = RdBegun r true true /\ 0 < r_snap r.
+Proof.
+  intros c s hi r j HV Pd Hj Hlc. pose proof (v_rd _ _ _ HV) as V. unfold rd_inv, pending in *.
+  destruct (rdp s) as [|r0 sv pb|r0 pb apd|r0 pb idx|r0|r0 fl|r0|r0 k]; try discriminate;
+    try (destruct (0 <? r_snap r0) eqn:Q; [|discriminate]; injection Pd as <-; apply N.ltb_lt in Q).
+  - destruct sv.
+    + destruct V as [-> [SF [Pb [W [L1 L2]]]]]. destruct j as [|j']; [auto|].
+      specialize (L2 (S j') ltac:(lia)). lia.
+    + destruct V as [SF [L _]]. specialize (L j Hj). lia.
+  - destruct apd; [contradiction|]. destruct V as [_ [SF [L _]]]. specialize (L j Hj). lia.
+  - contradiction.
+  - destruct V as [_ [SF [L _]]]. specialize (L j Hj). lia.
+  - destruct V as [_ [SF [L _]]]. specialize (L j Hj). lia.
 Qed.
 
 Lemma step_crash : forall c s s' j extra, Inv c s -> step c s (EvCrash j extra) = Ok s' -> Inv c s'.
 Proof.
   intros c s s' j extra [hi [HP HV]] H. unfold step in H.
   destruct (image s j extra) as [ss|] eqn:Im; [|discriminate]. injection H as <-.
-  unfold image, norm_image in Im. rewrite (pending_none c s hi HV) in Im. destruct extra as [|e'].
+  unfold image in Im. destruct extra as [|e'].
   - (* nothing of a save in flight reached the file *)
     destruct (Nat.leb j (unflushed s)) eqn:Lj; [|discriminate]. injection Im as <-. apply Nat.leb_le in Lj.
-    destruct (pinv_crash s (reset_volatile (set_segs s (drop_tail (segs s) j))) hi j HP Lj) as [HP' Hnw]; try reflexivity.
-    exists hi. split; [exact HP'|].
-    unfold running, RInv. proj. repeat split; try reflexivity; try discriminate.
-    + destruct (restoring_ok c s hi HV i H) as [A B]. rewrite Hnw. exact A.
-    + destruct (restoring_ok c s hi HV i H) as [A B]. exact B.
+    destruct (pinv_crash s (reset_volatile (set_segs s (drop_tail (segs s) j))) hi j HP Lj) as [HP0 Hnw0]; try reflexivity.
+    cbn [segs reset_volatile set_segs] in Hnw0.
+    pose proof (drop_tail_unvalidated s hi j HP Lj) as Hun0.
+    unfold norm_image. destruct (pending s) as [r|] eqn:Pd.
+    + destruct (r_snap r <=? last_commit (all_recs (drop_tail (segs s) j))) eqn:Qv.
+      * (* the hard state of the pending incoming snapshot is in the file: its record counts *)
+        apply N.leb_le in Qv.
+        assert (Hrun : running s = true).
+        { destruct (running s) eqn:Q; auto. destruct HV as [_ [Hr _]]. unfold pending in Pd. rewrite Hr in Pd. discriminate. }
+        rewrite Hrun in HV.
+        destruct (pending_valid_image c s hi r j HV Pd Lj Qv) as [-> [Er Hs]].
+        rewrite drop_tail_0 in *.
+        pose proof (v_rd _ _ _ HV) as V. unfold rd_inv in V. rewrite Er in V.
+        assert (Q : (0 <? r_snap r) = true) by (apply N.ltb_lt; exact Hs). rewrite Q in V.
+        destruct V as [_ [SF [Pb [W [L1 L2]]]]]. destruct SF as [_ [_ [_ [_ [Shi [Slt Spr]]]]]].
+        destruct W as [W1 [W2 [W3 W4]]].
+        destruct (pinv_validate s (reset_volatile (set_segs s (validated (r_snap r) (segs s)))) hi (r_snap r) HP W3 Slt Spr)
+          as [HP' [Hnw [Hlc [Hun [Hpm Hfs]]]]]; try reflexivity; auto; try lia.
+        exists (r_snap r). split; [exact HP'|].
+        unfold running. cbn [rc reset_volatile]. apply rinv_crashed.
+        -- intros x Hx. destruct (proj2 (v_pgwal _ _ _ HV) x Hx) as [k Hk]. congruence.
+        -- cbn [segs reset_volatile set_segs] in Hnw, Hun. intros u Hu. rewrite Hnw.
+           destruct (v_unval _ _ _ HV u (Hun u Hu)) as [A|[A|[A A']]].
+           ++ left. pose proof (pinv_newest_le_hi _ _ HP). lia.
+           ++ right. left. exact A.
+           ++ left. unfold pend_idx in A'. rewrite Pd in A'. lia.
+      * (* it is not: the record stays invalid *)
+        apply N.leb_gt in Qv.
+        exists hi. split; [exact HP0|].
+        unfold running. cbn [rc reset_volatile]. apply rinv_crashed.
+        -- intros x Hx. rewrite Hnw0. eapply restoring_ok; eauto.
+        -- rewrite Hnw0, Hun0. intros u Hu. destruct (unval_weak c s hi HV u Hu) as [A|[A|[[A A']|A]]]; auto.
+           ++ right. right. unfold pend_idx in A'. rewrite Pd in A'. subst u. exact Qv.
+           ++ (* not running: nothing is buffered *)
+              destruct (running s) eqn:Rn.
+              ** destruct (v_unval _ _ _ HV u Hu) as [B|[B|[B B']]]; auto. right. right. unfold pend_idx in B'. rewrite Pd in B'. subst u. exact Qv.
+              ** destruct HV as [U _]. assert (j = 0%nat) by lia. subst j. rewrite drop_tail_0. auto.
+    + (* no incoming snapshot is pending *)
+      exists hi. split; [exact HP0|].
+      unfold running. cbn [rc reset_volatile]. apply rinv_crashed.
+      * intros x Hx. rewrite Hnw0. eapply restoring_ok; eauto.
+      * rewrite Hnw0, Hun0. intros u Hu.
+        destruct (running s) eqn:Rn.
+        -- destruct (v_unval _ _ _ HV u Hu) as [B|[B|[B B']]]; auto. unfold pend_idx in B'. rewrite Pd in B'. lia.
+        -- destruct HV as [U [_ [_ [_ [_ [_ [_ [_ [_ [_ [Hun _]]]]]]]]]]]. assert (j = 0%nat) by lia. subst j. rewrite drop_tail_0.
+           destruct (Hun u Hu) as [A|[A|[_ A]]]; auto.
   - (* a prefix of the records of the save in flight reached the file *)
     destruct (rdp s) as [| | r pb apd | | | | |] eqn:Er; try discriminate. destruct apd; try discriminate.
     destruct j; [|discriminate].
     remember (S e') as ex eqn:Eex.
-    destruct (Nat.leb ex (length (ready_records r))) eqn:Le; [|discriminate]. injection Im as <-.
+    destruct (Nat.leb ex (length (ready_records r))) eqn:Le; [|discriminate]. injection Im as <-. apply Nat.leb_le in Le.
     assert (Hrun : running s = true).
     { destruct (running s) eqn:Q; auto. destruct HV as [_ [Hr _]]. congruence. }
-    rewrite Hrun in HV. destruct HV as [v_rd _ _ _ v_ws _ _ _ _ _ _ _ _ _ v_pgw _].
-    unfold rd_inv in v_rd. rewrite Er in v_rd. destruct v_rd as [[F1 [F2 F3]] [[Uhi [Uw [Uh Uc]]] _]].
-    destruct (save_entries_range s r hi Uhi F1) as [Erange Lrange].
-    rewrite ready_records_eq, Erange.
-    destruct (firstn_ents_state ex hi (rlast s r) (if r_hs r then [RState (r_commit r)] else []) Lrange)
-      as [b' [st' [Ef [Hb Hst]]]].
-    rewrite Ef.
-    assert (Hst2 : exists hs' : bool, st' = if hs' then [RState (r_commit r)] else []).
-    { destruct Hst as [->|[_ ->]]; [exists false; reflexivity|].
-      destruct (r_hs r); [|exists false; destruct (ex - N.to_nat (rlast s r - hi))%nat; reflexivity].
-      destruct (ex - N.to_nat (rlast s r - hi))%nat as [|n0]; [exists false; reflexivity | exists true; destruct n0; reflexivity]. }
-    destruct Hst2 as [hs' ->].
-    assert (HP' : PInv (reset_volatile (set_segs s (app_tail (segs s) (map REnt (range hi b') ++ (if hs' then [RState (r_commit r)] else []))))) b').
-    { apply (pinv_save s _ hi b' (range hi b') hs' (r_commit r) true HP); try reflexivity; try lia.
-      - unfold rlast in *. destruct (0 <? r_n r) eqn:Q; [destruct (F1 ltac:(lia)) as [_ [_ Fp]]; lia | destruct HP; lia].
-      - intros Hh. subst hs'. destruct Hst as [Hst|[_ Hst]].
-        + destruct (r_hs r); discriminate.
-        + destruct (r_hs r) eqn:Qh; [apply Uh; reflexivity|]. destruct (ex - N.to_nat (rlast s r - hi))%nat; discriminate. }
-    exists b'. split; [exact HP'|].
-    unfold running, RInv. proj. destruct v_pgw as [_ Prs]. repeat split; try reflexivity; try discriminate; exfalso; congruence.
+    rewrite Hrun in HV.
+    pose proof (pinv_segs_nonempty _ _ HP) as Hne.
+    pose proof (v_rd _ _ _ HV) as V. unfold rd_inv in V. rewrite Er in V.
+    unfold norm_image, pending. rewrite Er.
+    destruct (0 <? r_snap r) eqn:Qs.
+    + (* the hard state of a Ready with an incoming snapshot: its only record *)
+      destruct V as [-> [SF [Lc [Pb W]]]]. destruct SF as [Sn [Scn [Shs [Scm [Shi [Slt Spr]]]]]].
+      destruct W as [W1 [W2 [W3 W4]]].
+      assert (Hrr : ready_records r = [RState (r_snap r)]).
+      { rewrite ready_records_eq. assert (Q : (0 <? r_n r) = false) by lia. rewrite Q, Shs, Scm. reflexivity. }
+      rewrite Hrr in *. cbn [length] in Le. assert (He : e' = 0%nat) by lia. subst e'. subst ex. cbn [firstn].
+      assert (Hlc1 : last_commit (all_recs (app_tail (segs s) [RState (r_snap r)])) = r_snap r).
+      { rewrite app_tail_recs by auto. apply last_commit_snoc_state. }
+      rewrite Hlc1, N.leb_refl.
+      set (s1 := set_unflushed (set_segs s (app_tail (segs s) [RState (r_snap r)])) 0).
+      assert (HP1 : PInv s1 hi).
+      { apply (pinv_save s s1 hi hi [] true (r_snap r) true HP); try reflexivity; try lia.
+        all: try (rewrite range_nil by lia; reflexivity).
+        all: try (destruct HP; lia).
+        all: try (intros _; specialize (Lc 0%nat ltac:(lia)); rewrite drop_tail_0 in Lc; lia). }
+      assert (Hst1 : snap_tail s1 hi (r_snap r)) by (eapply (snap_tail_app s s1); eauto; reflexivity).
+      destruct (pinv_validate s1 (reset_volatile (set_segs s (validated (r_snap r) (app_tail (segs s) [RState (r_snap r)])))) hi (r_snap r) HP1 Hst1 Slt Spr)
+        as [HP' [Hnw [Hlc [Hun [Hpm Hfs]]]]]; try reflexivity; auto; try (unfold s1; proj; rewrite Hlc1; lia).
+      exists (r_snap r). split; [exact HP'|].
+      unfold running. cbn [rc reset_volatile]. apply rinv_crashed.
+      * intros x Hx. destruct (proj2 (v_pgwal _ _ _ HV) x Hx) as [k Hk]. congruence.
+      * cbn [segs reset_volatile set_segs] in Hnw, Hun. intros u Hu. rewrite Hnw.
+        specialize (Hun u Hu). unfold s1 in Hun. proj. rewrite app_tail_recs, unvalidated_app in Hun by auto. simpl in Hun. rewrite app_nil_r in Hun.
+        destruct (v_unval _ _ _ HV u Hun) as [A|[A|[A A']]].
+        -- left. pose proof (pinv_newest_le_hi _ _ HP). lia.
+        -- right. left. exact A.
+        -- left. unfold pend_idx, pending in A'. rewrite Er, Qs in A'. lia.
+    + destruct V as [[F1 F2] [[Uhi [Uw [Uh Uc]]] _]].
+      destruct (save_entries_range s r hi Uhi F1) as [Erange Lrange].
+      rewrite ready_records_eq, Erange.
+      destruct (firstn_ents_state ex hi (rlast s r) (if r_hs r then [RState (r_commit r)] else []) Lrange)
+        as [b' [st' [Ef [Hb Hst]]]].
+      rewrite Ef.
+      assert (Hst2 : exists hs' : bool, st' = if hs' then [RState (r_commit r)] else []).
+      { destruct Hst as [->|[_ ->]]; [exists false; reflexivity|].
+        destruct (r_hs r); [|exists false; destruct (ex - N.to_nat (rlast s r - hi))%nat; reflexivity].
+        destruct (ex - N.to_nat (rlast s r - hi))%nat as [|n0]; [exists false; reflexivity | exists true; destruct n0; reflexivity]. }
+      destruct Hst2 as [hs' ->].
+      set (rs := map REnt (range hi b') ++ (if hs' then [RState (r_commit r)] else [])).
+      assert (HP' : PInv (reset_volatile (set_segs s (app_tail (segs s) rs))) b').
+      { apply (pinv_save s _ hi b' (range hi b') hs' (r_commit r) true HP); try reflexivity; try lia.
+        - unfold rlast in *. destruct (0 <? r_n r) eqn:Q; [destruct (F1 ltac:(lia)) as [_ [_ Fp]]; lia | destruct HP; lia].
+        - intros Hh. subst hs'. destruct Hst as [Hst|[_ Hst]].
+          + destruct (r_hs r); discriminate.
+          + destruct (r_hs r) eqn:Qh; [apply Uh; reflexivity|]. destruct (ex - N.to_nat (rlast s r - hi))%nat; discriminate. }
+      exists b'. split; [exact HP'|].
+      unfold running. cbn [rc reset_volatile]. apply rinv_crashed.
+      * intros x Hx. rewrite newest_app_tail_nomark by (auto; apply pmarkers_ents_state). eapply (restoring_ok c s hi); [rewrite Hrun; exact HV | exact Hx].
+      * rewrite newest_app_tail_nomark by (auto; apply pmarkers_ents_state). rewrite app_tail_recs, unvalidated_app by auto.
+        unfold rs. rewrite (unvalidated_local _ (local_ents_state _ _ _)), app_nil_r.
+        intros u Hu. destruct (v_unval _ _ _ HV u Hu) as [B|[B|[B B']]]; auto.
+        unfold pend_idx, pending in B'. rewrite Er, Qs in B'. lia.
 Qed.
 
 (* ---------- the restart ---------- *)
 
 Ltac rinv HV U Hrd Hap Hsn Hck Hpw Hps Hq Hrc :=
-  let Hws := fresh "Hws" in let Hrs := fresh "Hrs" in
-  destruct HV as [U [Hrd [Hap [Hsn [Hck [Hpw [Hps [Hq [Hws [Hrs Hrc]]]]]]]]]].
+  let Hws := fresh "Hws" in let Hrs := fresh "Hrs" in let Hun := fresh "Hun" in
+  destruct HV as [U [Hrd [Hap [Hsn [Hck [Hpw [Hps [Hq [Hws [Hrs [Hun Hrc]]]]]]]]]]].
 
 Lemma not_running_rc : forall s, running s = false -> rc s <> RcRunning.
 Proof. intros s H. unfold running in H. destruct (rc s); congruence. Qed.
@@ -95,15 +208,40 @@ Proof. intros s H. unfold running in H. destruct (rc s); congruence. Qed.
 Ltac rinv_open HV R :=
   unfold running in HV; rewrite R in HV; cbv iota in HV; unfold RInv in HV; rewrite R in HV.
 
+(* a snap file whose WAL record is valid is not newer than the newest marker that counts *)
+Lemma valid_file_le_newest : forall s f,
+  (forall i, In i (unvalidated (all_recs (segs s))) ->
+     i <= newest (segs s) \/ ~ In i (snapfiles s) \/ last_commit (all_recs (segs s)) < i) ->
+  In f (snapfiles s) -> In f (valid_markers (segs s)) -> f <= newest (segs s).
+Proof.
+  intros s f J Hf Hv. unfold valid_markers in Hv. apply filter_In in Hv. destruct Hv as [Hm Hc].
+  destruct (markers_split _ _ Hm) as [X|X]; [apply newest_ge; exact X|].
+  destruct (J f X) as [A|[A|A]]; [exact A | contradiction | lia].
+Qed.
+
+Lemma rinv_unval_weak : forall s, rc s = RcStart ->
+  (forall i, In i (unvalidated (all_recs (segs s))) ->
+     i <= newest (segs s) \/ ~ In i (snapfiles s) \/ (rc s = RcStart /\ last_commit (all_recs (segs s)) < i)) ->
+  forall i, In i (unvalidated (all_recs (segs s))) ->
+     i <= newest (segs s) \/ ~ In i (snapfiles s) \/ last_commit (all_recs (segs s)) < i.
+Proof. intros s R H i Hi. destruct (H i Hi) as [A|[A|[_ A]]]; auto. Qed.
+
 Lemma step_rc_chosen : forall c s s' i, fixed c -> Inv c s -> step c s (EvRcChosen i) = Ok s' -> Inv c s'.
 Proof.
   intros c s s' i [_ [Hfx _]] [hi [HP HV]] H. unfold step in H. rewrite Hfx in H.
   destruct (rc s) eqn:R; try discriminate.
   destruct (restore_pending s) eqn:Rp; [discriminate|].
-  rinv_open HV R. rinv HV U Hrd Hap Hsn Hck Hpw Hps Hq Hrc. destruct Hrc as [Hlat Heng].
-  rewrite (pinv_choose _ _ HP U) in H.
+  rinv_open HV R. rinv HV U Hrd Hap Hsn Hck Hpw Hps Hq Hlat.
+  assert (J : forall i, In i (unvalidated (all_recs (segs s))) ->
+               i <= newest (segs s) \/ ~ In i (snapfiles s) \/ last_commit (all_recs (segs s)) < i).
+  { intros u Hu. destruct (Hun u Hu) as [A|[A|[_ A]]]; auto. }
+  rewrite (pinv_choose _ _ HP U J) in H.
   destruct (0 <? newest (segs s)) eqn:Q; [|discriminate].
   destruct (i =? newest (segs s)) eqn:Qi; [|discriminate]. injection H as <-.
+  assert (Hle : forall f, In f (remove_orphans (segs s) (snapfiles s) (Some (newest (segs s)))) -> f <= newest (segs s)).
+  { intros f Hf. apply remove_orphans_In in Hf. destruct Hf as [Hin [Hv|[c0 [Ec Hle]]]].
+    - apply (valid_file_le_newest s f J Hin Hv).
+    - injection Ec as <-. exact Hle. }
   exists hi. split.
   - apply (pinv_files s); try reflexivity; try exact HP; proj.
     + intros Hp. destruct (p_file _ _ HP Hp) as [A B]. split; [apply remove_orphans_keeps; exact A | exact B].
@@ -112,9 +250,8 @@ Proof.
     + intros f Hf. apply remove_orphans_In in Hf. destruct Hf as [Hf _]. exact (p_files_le _ _ HP f Hf).
     + exact (p_ckpts _ _ HP).
   - unfold running, RInv. proj. repeat split; auto; try lia; try discriminate.
-    + intros f Hf. apply remove_orphans_In in Hf. destruct Hf as [_ [Hv|[c0 [Ec Hle]]]].
-      * apply valid_markers_sub in Hv. apply newest_ge. exact Hv.
-      * injection Ec as <-. exact Hle.
+    + intros u Hu. destruct (N.le_gt_cases u (newest (segs s))) as [L|L]; [left; exact L | right; left].
+      intros Hin. specialize (Hle u Hin). lia.
 Qed.
 
 Lemma step_rc_none : forall c s s', fixed c -> Inv c s -> step c s EvRcNone = Ok s' -> Inv c s'.
@@ -122,15 +259,18 @@ Proof.
   intros c s s' [_ [Hfx _]] [hi [HP HV]] H. unfold step in H. rewrite Hfx in H.
   destruct (rc s) eqn:R; try discriminate.
   destruct (restore_pending s) eqn:Rp; [discriminate|].
-  rinv_open HV R. rinv HV U Hrd Hap Hsn Hck Hpw Hps Hq Hrc. destruct Hrc as [Hlat Heng].
-  rewrite (pinv_choose _ _ HP U) in H.
+  rinv_open HV R. rinv HV U Hrd Hap Hsn Hck Hpw Hps Hq Hlat.
+  assert (J : forall i, In i (unvalidated (all_recs (segs s))) ->
+               i <= newest (segs s) \/ ~ In i (snapfiles s) \/ last_commit (all_recs (segs s)) < i).
+  { intros u Hu. destruct (Hun u Hu) as [A|[A|[_ A]]]; auto. }
+  rewrite (pinv_choose _ _ HP U J) in H.
   destruct (0 <? newest (segs s)) eqn:Q; [discriminate|]. injection H as <-.
   assert (Hn0 : newest (segs s) = 0) by lia.
   assert (Hempty : remove_orphans (segs s) (snapfiles s) None = []).
   { destruct (remove_orphans (segs s) (snapfiles s) None) as [|f l] eqn:El; [reflexivity|exfalso].
     assert (Hf : In f (remove_orphans (segs s) (snapfiles s) None)) by (rewrite El; left; reflexivity).
     apply remove_orphans_In in Hf. destruct Hf as [Hin [Hv|[c0 [Ec _]]]]; [|discriminate].
-    apply valid_markers_sub in Hv. apply newest_ge in Hv.
+    pose proof (valid_file_le_newest s f J Hin Hv).
     assert (f = 0) by lia. subst f. exact (p_nozero _ _ HP Hin). }
   exists hi. split.
   - apply (pinv_files s); try reflexivity; try exact HP; proj; rewrite ?Hempty.
@@ -139,11 +279,11 @@ Proof.
     + constructor.
     + intros f [].
     + exact (p_ckpts _ _ HP).
-  - unfold running, RInv. proj. rewrite Hempty. repeat split; auto; discriminate.
+  - unfold running, RInv. proj. rewrite Hempty. repeat split; auto; try discriminate.
 Qed.
 
-(* restoreFromPath: marker written, data directory emptied (the restore of the chosen snapshot, or the one a previous
-   life did not finish) *)
+(* restoreFromPath: marker written, data directory emptied (the restore of the chosen snapshot, the one a previous
+   life did not finish, or the installation of an incoming snapshot on the running node) *)
 Lemma step_rs_removed : forall c s s' i, Inv c s -> step c s (EvRsRemoved i) = Ok s' -> Inv c s'.
 Proof.
   intros c s s' i [hi [HP HV]] H. unfold step in H.
@@ -153,16 +293,22 @@ Proof.
     destruct (negb (i =? j)); [discriminate|]. destruct (lookup j (ckpts s)); [|discriminate]. injection H as <-.
     rinv_open HV R. rinv HV U Hrd Hap Hsn Hck Hpw Hps Hq Hrc.
     exists hi. split; [pframe s|].
-    unfold running, RInv. proj. rewrite R. destruct Hrc as [A B]. repeat split; auto; try discriminate; apply Hrs; assumption.
+    unfold running, RInv. proj. rewrite R. repeat split; auto; try discriminate; apply Hrs; assumption.
   - destruct (negb (i =? i0)); [discriminate|]. destruct (lookup i0 (ckpts s)); [|discriminate]. injection H as <-.
     rinv_open HV R. rinv HV U Hrd Hap Hsn Hck Hpw Hps Hq Hrc.
     exists hi. split; [pframe s|].
     unfold running, RInv. proj. rewrite R. destruct Hrc as [A [B [C [D E]]]]. repeat split; auto.
     all: try (match goal with Hk : Some _ = Some _ |- _ => injection Hk as <- end; assumption).
     all: try (intros l9 Hl; discriminate).
-  - (* RestoreFromSnapshot of an incoming snapshot: not reached by a replica that never gets one *)
-    exfalso. destruct (app s) eqn:Ea; try discriminate.
-    unfold running in HV. rewrite R in HV. destruct HV. rewrite Ea in v_app. exact v_app.
+  - (* RestoreFromSnapshot of an incoming snapshot *)
+    destruct (app s) as [| | | | | | | | | |j k] eqn:Ea; try discriminate.
+    destruct k as [|k']; [|discriminate].
+    destruct (negb (i =? j)); [discriminate|]. destruct (lookup j (ckpts s)); [|discriminate]. injection H as <-.
+    exists hi. split; [pframe s|].
+    unfold running in *. proj. rewrite R in *.
+    vinv_split HV.
+    + rewrite Ea in v_app. unfold snap_done in v_app. tauto.
+    + split; [tauto|]. intros x Hx. injection Hx as <-. exists 0%nat. reflexivity.
 Qed.
 
 Lemma step_rs_copied : forall c s s' i, Inv c s -> step c s (EvRsCopied i) = Ok s' -> Inv c s'.
@@ -173,10 +319,8 @@ Proof.
     destruct (negb (i =? j)); [discriminate|]. destruct (lookup j (ckpts s)) as [l0|] eqn:L; [|discriminate]. injection H as <-.
     rinv_open HV R. rinv HV U Hrd Hap Hsn Hck Hpw Hps Hq Hrc.
     exists hi. split; [pframe s|].
-    unfold running, RInv. proj. rewrite R. destruct Hrc as [A B]. destruct (Hrs j Rs) as [Hj1 Hj2].
+    unfold running, RInv. proj. rewrite R.
     repeat split; auto; try (apply Hrs; assumption).
-    (* the engine holds the state of the newest snapshot again (startRaft will clean or restore it anyway) *)
-    intros l9 Hl9. injection Hl9 as <-. rewrite <- Hj1. eapply p_ckpts; eauto.
   - destruct (negb (i =? i0)); [discriminate|]. destruct (lookup i0 (ckpts s)) as [l0|] eqn:L; [|discriminate]. injection H as <-.
     rinv_open HV R. rinv HV U Hrd Hap Hsn Hck Hpw Hps Hq Hrc.
     exists hi. split; [pframe s|].
@@ -184,9 +328,17 @@ Proof.
     all: try solve [intros l9 Hl9; injection Hl9 as <-; eapply p_ckpts; eauto].
     all: try solve [intros; discriminate].
     all: apply Hrs; assumption.
-  - (* RestoreFromSnapshot of an incoming snapshot: not reached by a replica that never gets one *)
-    exfalso. destruct (app s) eqn:Ea; try discriminate.
-    unfold running in HV. rewrite R in HV. destruct HV. rewrite Ea in v_app. exact v_app.
+  - destruct (app s) as [| | | | | | | | | |j k] eqn:Ea; try discriminate.
+    destruct k as [|[|k']]; try discriminate.
+    destruct (restoring s) as [x|] eqn:Rs; [|discriminate].
+    destruct (negb (i =? j)); [discriminate|]. destruct (lookup j (ckpts s)) as [l0|] eqn:L; [|discriminate]. injection H as <-.
+    exists hi. split; [pframe s|].
+    unfold running in *. proj. rewrite R in *.
+    vinv_split HV.
+    + rewrite Ea in v_app. unfold snap_done in v_app. destruct v_app as [A [B [C [D1 D2]]]]. repeat split; try tauto.
+      * intros l9 Hl9. injection Hl9 as <-. eapply p_ckpts; eauto.
+      * intros y Hy. congruence.
+    + split; [tauto|]. intros y Hy. rewrite Ea in v_app. destruct v_app as [_ [_ [_ [D1 _]]]]. exists 1%nat. congruence.
 Qed.
 
 Lemma step_rs_marker_gone : forall c s s', Inv c s -> step c s EvRsMarkerGone = Ok s' -> Inv c s'.
@@ -194,11 +346,17 @@ Proof.
   intros c s s' [hi [HP HV]] H. unfold step in H.
   destruct (restoring s) as [j|] eqn:Rs; [|discriminate]. destruct (engine s) eqn:En; [|discriminate].
   destruct (running s) eqn:Rn.
-  { exfalso. destruct (app s) eqn:Ea; try discriminate. destruct HV. rewrite Ea in v_app. exact v_app. }
-  simpl in H. injection H as <-.
-  exists hi. split; [pframe s|].
-  unfold running in *. proj. destruct (rc s) eqn:R; try discriminate; unfold RInv in *; proj; rewrite R in *;
-    decompose [and] HV; repeat split; auto; try discriminate.
+  - destruct (app s) as [| | | | | | | | | |x k] eqn:Ea; try discriminate.
+    destruct k as [|[|[|k']]]; try discriminate. simpl in H. injection H as <-.
+    exists hi. split; [pframe s|].
+    unfold running in *. proj. destruct (rc s) eqn:R; try discriminate.
+    vinv_split HV.
+    + rewrite Ea in *. unfold snap_done in v_app. destruct v_app as [A [B [C [D1 D2]]]]. repeat split; try tauto. intros y Hy. discriminate.
+    + split; [tauto|]. intros y Hy. discriminate.
+  - simpl in H. injection H as <-.
+    exists hi. split; [pframe s|].
+    unfold running in *. proj. destruct (rc s) eqn:R; try discriminate; unfold RInv in *; proj; rewrite R in *;
+      decompose [and] HV; repeat split; auto; try discriminate.
 Qed.
 
 Lemma step_rc_restored : forall c s s' i, Inv c s -> step c s (EvRcRestored i) = Ok s' -> Inv c s'.
@@ -215,7 +373,9 @@ Proof.
   - apply (pinv_files s); try reflexivity; try exact HP; proj; try (destruct HP; assumption).
     + intros Hp. destruct (p_file _ _ HP Hp) as [X Y]. split; [exact X|]. rewrite lookup_purge_ckpts by (apply Hv; lia). exact Y.
     + intros j l1 Hl. apply lookup_purge_ckpts_some in Hl. eapply p_ckpts; eauto.
-  - unfold running, RInv. proj. repeat split; auto; try discriminate. rewrite En. f_equal. apply E. exact En.
+  - unfold running, RInv. proj. repeat split; auto; try discriminate.
+    + intros j Hj. destruct (Hun j Hj) as [X|[X|[X _]]]; [left; exact X | right; left; exact X | discriminate].
+    + rewrite En. f_equal. apply E. exact En.
 Qed.
 
 (* a node on a fresh WAL (first start, or a WAL found without any raft state) *)
